@@ -972,6 +972,9 @@ def same_name_part(run, rng, npairs, nops):
                 cls = tables[which]["%s_%s" % (fam["root"], v)]
                 r = harness.lib_unpack(cls, raw)
                 got = None
+                if r.status == "timeout":
+                    run.count("watchdog_skipped")
+                    continue
                 if r.status == "ok":
                     try:
                         got = (monitors.pkt_to_pv(fam, fam["root"], r.pkt), r.end, pack_outcome(r.pkt))
